@@ -59,3 +59,8 @@ Proof. exact (conj write_accepted guard_pins). Qed.
    asset no longer records cannot reach it any more *)
 Theorem C06_code_forgets_dropped_dependencies : insert_wf DepsGraph_insert = true.
 Proof. exact graph_insert_as_modelled. Qed.
+
+(* at most once per pass: the printed visit marks a node as visited before anything else can list it
+   (no path around the visited set) *)
+Theorem C06_code_visits_each_asset_once : visit_wf DepsGraph_visit = true.
+Proof. exact visit_marks_before_recursing. Qed.
